@@ -674,3 +674,10 @@ Proof.
   - exfalso. vm_compute in Ep. injection Ep as <-. vm_compute in Ec. discriminate Ec.
   - exfalso. vm_compute in Ep. injection Ep as <-. vm_compute in Ec. discriminate Ec.
 Qed.
+
+(* the hypotheses of step_minv at the first token of every run *)
+Example step_minv_example :
+  let pr : tok := (R_template, 0, 12) in
+  exists c' it', step bad_src bad_tokens default_opts 10 init_cstate pr [] = COk (c', it')
+                 /\ tok_ok init_cstate pr = true /\ minv init_cstate.
+Proof. cbv zeta. do 2 eexists. split; [vm_compute; reflexivity|]. split; [reflexivity|exact minv_init]. Qed.
